@@ -109,6 +109,8 @@ def auto_discharge(db, fn, site, T, fl, dom, guards):
             return None
     return None
 
+THOROUGH_MAIN_CONFIGS = ['b248s6', 'nostd']
+
 
 def run(ctx, rep):
     db = ctx.main
